@@ -275,6 +275,10 @@ class Path:
                             self.solver.set("timeout", self.ex.timeout_ms)
                             break
                 verdict = "proved" if r == z3.unsat else ("failed" if r == z3.sat else "unknown")
+                if verdict == "failed" and self.ghost.get("ctor_attr_unknown"):
+                    # the contract's hand-built object lacks a constructor-derived attribute whose value could not be reconstructed: out of date, not refuted
+                    verdict, r = "unknown", z3.unknown
+                    name = f"{name} [undecided: the contract's state model does not know the constructor-derived attribute {self.ghost['ctor_attr_unknown']}]"
                 model = None
                 smt2 = None
                 if r == z3.sat:
@@ -606,6 +610,31 @@ class Interp:
         vals = self.front.instance_attr_values(o.cls, attr)
         if not vals:
             return None
+        if all(meth == "__init__" for _, meth, _ in vals):
+            # assigned only by constructors: not run state but something the constructor derives (typically a cached value).  The contract built
+            # `self` by hand before this attribute existed; evaluate the constructor's own expression over the object's other attributes ...
+            owner, meth, e = vals[0]
+            if len(vals) == 1 and e is not None:
+                mi = self.front.find_method(owner, "__init__")
+                me = mi.node.args.args[0].arg if mi is not None and mi.node.args.args else "self"
+                names = {x.id for x in ast.walk(e) if isinstance(x, ast.Name)}
+                params = {a.arg for a in (mi.node.args.args[1:] + mi.node.args.kwonlyargs)} if mi is not None else set()
+                if not (names & params):
+                    fr = Frame(self.front.classes[owner].module, owner)
+                    fr.env[me] = o
+                    self.frames.append(fr)
+                    try:
+                        v = self.ev(e)
+                        o.f[attr] = v
+                        self.path.ex.assumed.add(f"{o.cls}.{attr} is derived by the constructor: computed from the object's other attributes by the constructor's own expression `{ast.unparse(e)[:60]}`")
+                        return v
+                    except (Unsupported, KeyError, AttributeError, TypeError):
+                        pass
+                    finally:
+                        self.frames.pop()
+            # ... and where that is not possible (it depends on constructor arguments the hand-built object does not have) the value is unknown:
+            # an obligation that fails on this path may fail only because of that, so it is reported as undecided, never as a violation
+            self.path.ghost["ctor_attr_unknown"] = f"{o.cls}.{attr}"
         kinds = []
 
         def add(k):
